@@ -69,6 +69,14 @@ class CXX2C(Emitter, ExprMixin, LibMixin, StmtMixin):
                 while 'previousDecl' in first and first['previousDecl'] in self.byid: first = self.byid[first['previousDecl']]
                 cn = self.fn_cname(first); self.cnames[d['id']] = cn
                 self.want(d)
+        # every record the unit description declares transparent gets its C type, used or not: stubs in the spec files
+        # may mention it even when an edit of the repository stops using it
+        for k, mode in self.u.get('records', {}).items():
+            if mode != 'transparent': continue
+            try:
+                r = self.find_record(k)
+                if r is not None: self.ty(self.qname.get(r['id'], k))
+            except Unsupported: pass
         done = set()
         while self.wanted or self.pending_defaults:
             while self.wanted:
